@@ -1,6 +1,6 @@
 """Per-property check definitions: which theorems, which configurations, which generator profile,
 which projection and monitor (DESIGN.md section 7)."""
-import os, random, json, subprocess, itertools, hashlib, collections, re, shutil, tempfile
+import os, sys, random, json, subprocess, itertools, hashlib, collections, re, shutil, tempfile
 from . import common, cfg as cfgmod, gen, corr, trace as T, monitors, proofs, units, engine
 from .engine import MachineSpec, Run
 
@@ -86,6 +86,14 @@ def cfgs_plans(tier, rng):
                                payload=pick(rng, [0, 0, 2]), plans=1, serial=k % 2, history=1, log="on"))
     return out
 
+def cfgs_plans9(tier, rng):
+    # planSucceeded/planFailed "never on a machine without a task since activation": needs re-activation (manual enter/exit, load), both payload-free and payload plans
+    out = []
+    for k in range(6 if tier == "quick" else 16):
+        out.append(cfgmod.make(n=pick(rng, [1, 2, 3]), head=1, manual=1 if k % 3 else 0, limit=pick(rng, [2, 4]), cap=[1, 2, 3][k % 3],
+                               payload=[0, 2, 0][k % 3], plans=1, serial=k % 2, history=1, log="on"))
+    return out
+
 P_PLANS = BASE.with_(n_ops=(10, 36), n_tab=(1, 8), p_logger_at_construct=1.0,
                      w_ops=dict(update=12, react=4, query=0, change=2, immChange=2, succeed=5, fail=2, plan_append=9, plan_appendWith=3, plan_clear=1,
                                 plan_removeAt=2, loadfrom=0, exit_enter=1, copy=1, destroy_construct=1, attachLogger=0),
@@ -156,7 +164,7 @@ SPECS = {
                        lambda ls, c: has(ls, lambda l: l.kind == "cb" and l.meth in ("enter", "reenter") and l.f.get("cur", "-")[-1:] not in ("-", ""))),
     "C08": MachineSpec("C08", T.p_C08, P_PLANS, cfgs_plans, lambda t: 80 if t == "quick" else 400,
                        lambda ls, c: has(ls, lambda l: l.kind == "log" and l.what == "transition" and l.args[0] != "255")),
-    "C09": MachineSpec("C09", T.p_C09, P_PLANS, cfgs_plans, lambda t: 80 if t == "quick" else 400,
+    "C09": MachineSpec("C09", T.p_C09, P_PLANS.with_(w_ops=dict(exit_enter=5, destroy_construct=2, loadfrom=1, succeed=7, fail=4), p_cond=0.4), cfgs_plans9, lambda t: 80 if t == "quick" else 400,
                        lambda ls, c: has(ls, lambda l: l.kind == "cb" and l.meth in T.PLANCB)),
     "C11": MachineSpec("C11", T.p_C11, P_REPL, cfgs_replication, lambda t: 80 if t == "quick" else 400,
                        lambda ls, c: has(ls, lambda l: l.kind == "obs" and l.f.get("prev", "-") != "-")),
@@ -286,10 +294,267 @@ def machine_check(pid):
 CHECKS = {"C10": check_C10, "C13": check_C13, "C14": check_C14, "C20": check_C20}
 for _pid in SPECS: CHECKS[_pid] = machine_check(_pid)
 
+# ---------------------------------------------------------------------------------------------- C17
+def cfgs_copies(tier, rng):
+    out = []
+    for k in range(6 if tier == "quick" else 16):
+        out.append(cfgmod.make(n=pick(rng, [1, 2, 3, 4]), head=k % 2, manual=(k // 2) % 2, limit=pick(rng, [2, 4]), cap=pick(rng, [1, 2, 3]), payload=pick(rng, [0, 2, 5]),
+                               plans=1 if k % 3 else 0, serial=1, history=1, log="on" if k % 2 else "off"))
+    return out
+
+P_COPIES = P_LIFE.with_(n_ops=(10, 34), w_ops=dict(copy=7, second_instance=3, destroy_construct=2, succeed=3, fail=1, plan_append=5, plan_appendWith=2, changeWith=3, immChangeWith=3, loadfrom=2),
+                        w_act=dict(change=6, changeWith=2, cancel=3, succeed=4, fail=1, plan_append=3), p_logger_at_construct=0.5)
+
+SPEC_C17 = MachineSpec("C17", T.p_C17, P_COPIES, cfgs_copies, lambda t: 60 if t == "quick" else 300,
+                       lambda ls, c: has(ls, lambda l: l.kind == "api" and l.op == "copy") and sum(1 for l in ls if l.kind == "cb") >= 4)
+
+FILLS = ["00", "ff", "a5", "5a", "01", "80"]
+def refill(script, fill):
+    out = []
+    for l in script.split("\n"):
+        t = l.split(" ")
+        if l.startswith("op construct ") or l.startswith("op copy "): t[-1] = fill; l = " ".join(t)
+        out.append(l)
+    return "\n".join(out)
+
+def check_C17(run):
+    facts = subprocess.run([sys.executable, os.path.join(common.VERIF, "tools", "initfacts.py")], capture_output=True, text=True)
+    try: run.extra["generated_facts"] = json.loads(facts.stdout.strip().split("\n")[-1])
+    except Exception: run.extra["generated_facts"] = dict(error=(facts.stdout + facts.stderr)[-500:])
+    run.proof = proofs.check_property("C17")          # after regenerating Generated/InitFacts.v
+    engine.run_machine(run, SPEC_C17)
+    # the same history over different prior memory contents must give the same trace (implementation against itself)
+    cfgs = cfgs_copies(run.tier, random.Random(7)); rng = run.rng
+    per = 8 if run.tier == "quick" else 40
+    for c in cfgs:
+        bins = {v: cfgmod.build(c, v)[0] for v in ("include", "development")}
+        for k in range(per):
+            s = gen.gen_script(rng, c, P_COPIES)
+            for v, b in bins.items():
+                if not b: continue
+                base = None
+                for f in FILLS:
+                    rc, out, err = corr.run_impl(b, refill(s, f), timeout=30)
+                    run.traces_validated += 1
+                    if rc != 0:
+                        run.violations.append(dict(reason="implementation run failed (exit status %s) with fill %s: %s" % (rc, f, err[-800:]), script=refill(s, f), cfg=cfgmod.name(c), variant=v)); break
+                    norm = "\n".join(l for l in out.splitlines() if not l.startswith("api "))
+                    if base is None: base = (f, norm)
+                    elif norm != base[1]:
+                        a = norm.splitlines(); b_ = base[1].splitlines()
+                        i = next((x for x in range(min(len(a), len(b_))) if a[x] != b_[x]), min(len(a), len(b_)))
+                        run.violations.append(dict(reason="behaviour depends on prior memory contents: with storage pre-filled 0x%s line %d is [%s], with 0x%s it is [%s]" % (
+                            f, i, a[i] if i < len(a) else "<end>", base[0], b_[i] if i < len(b_) else "<end>"), script=refill(s, f), cfg=cfgmod.name(c), variant=v, monitor=False, fill_pair=[base[0], f]))
+                        break
+            run.evaluations += 1
+    return dict(rule="(a) generated scripts with copy construction at random points, second instances, destruction/re-construction, over storage pre-filled with 0x00/0xff/0xa5/0x5a, compared with the model on the whole "
+                     "trace and checked by the copy-equals-original monitor; (b) every script of a second batch re-run with each of six fill bytes: the implementation's traces must be identical; "
+                     "non-trivial = contains a copy and at least four callbacks", explanation="")
+
+CHECKS["C17"] = check_C17
+
 def run_check(pid, tier, seed):
     run = Run(pid, tier, seed)
-    run.proof = proofs.check_property(pid)
+    run.proof = proofs.check_property(pid) if pid not in ("C17",) else None
     info = CHECKS[pid](run)
     run.extra.update({k: v for k, v in info.items() if k not in ("rule", "explanation")})
     level = info.get("level", "proof")
     return engine.finish(run, level, LEVEL_TEXT.get(level, ""), info["rule"], info.get("explanation", ""))
+
+# ---------------------------------------------------------------------------------------------- C18
+SAN = ["-fsanitize=address,undefined", "-fno-sanitize-recover=all", "-g", "-fno-omit-frame-pointer"]
+SAN_ENV = dict(ASAN_OPTIONS="detect_leaks=0:abort_on_error=0:exitcode=99", UBSAN_OPTIONS="print_stacktrace=1:halt_on_error=1:exitcode=98")
+
+def cfgs_san(tier, rng):
+    out = [cfgmod.make(n=1, head=1, manual=1, limit=1, cap=1, payload=5, plans=1, serial=1, history=1, log="on"),          # smallest machine, 16-byte aligned payload, capacity 1
+           cfgmod.make(n=3, head=1, manual=0, limit=4, cap=3, payload=3, plans=1, serial=1, history=1, log="off"),         # double payload
+           cfgmod.make(n=4, head=0, manual=1, limit=2, cap=2, payload=4, plans=1, serial=1, history=1, log="verbose"),     # 3-byte payload
+           cfgmod.make(n=2, head=1, manual=0, limit=3, cap=4, payload=2, plans=1, serial=0, history=0, log="off"),
+           cfgmod.make(n=5, head=0, manual=0, limit=2, cap=1, payload=0, plans=1, serial=1, history=1, log="on", inj_state=1)]
+    if tier != "quick":
+        out += [cfgmod.make(n=9, head=1, manual=1, limit=4, cap=8, payload=5, plans=1, serial=1, history=1, log="on"),
+                cfgmod.make(n=3, head=1, manual=0, limit=8, cap=3, payload=1, plans=1, serial=1, history=1, log="off", inj_root=2, inj_state=2),
+                cfgmod.make(n=64, head=1, manual=1, limit=2, cap=2, payload=3, plans=1, serial=1, history=1, log="off"),
+                cfgmod.make(n=255, head=0, manual=1, limit=2, cap=255, payload=0, plans=1, serial=1, history=1, log="off")]
+    return out
+
+P_SAN = P_PLANS.with_(n_ops=(12, 40), w_ops=dict(plan_append=12, plan_appendWith=8, changeWith=4, immChangeWith=4, loadfrom=3, copy=2, second_instance=2, replayTransition=2,
+                                                 plan_removeAt=3, plan_clear=1, exit_enter=3, attachLogger=1),
+                      w_act=dict(plan_append=6, plan_appendWith=5, changeWith=4, succeed=8, fail=3, cancel=3, change=3, plan_removeAt=2), p_logger_at_construct=0.7)
+
+NOALLOC_SYMS = re.compile(r"\b(_Zn[wa]\w*|_Zd[la]\w*|malloc|calloc|realloc|free|aligned_alloc|posix_memalign|memalign|valloc)\b")
+
+def feature_sets(tier):
+    names = ["FFSM2_ENABLE_PLANS", "FFSM2_ENABLE_SERIALIZATION", "FFSM2_ENABLE_TRANSITION_HISTORY", "FFSM2_ENABLE_LOG_INTERFACE",
+             "FFSM2_ENABLE_VERBOSE_DEBUG_LOG", "FFSM2_ENABLE_STRUCTURE_REPORT", "FFSM2_ENABLE_DEBUG_STATE_TYPE", "FFSM2_DISABLE_TYPEINDEX"]
+    return names, list(range(256))
+
+def mask_flags(names, mask):
+    return ["-D" + n for k, n in enumerate(names) if (mask >> k) & 1]
+
+def check_C18(run):
+    tier = run.tier
+    # (1) the correspondence corpus under AddressSanitizer + UndefinedBehaviorSanitizer
+    old_env = {k: os.environ.get(k) for k in SAN_ENV}; os.environ.update(SAN_ENV)
+    try:
+        spec = MachineSpec("C18", T.p_all, P_SAN, cfgs_san, lambda t: 40 if t == "quick" else 200,
+                           lambda ls, c: has(ls, lambda l: l.kind == "did" and l.res == "full") or has(ls, lambda l: l.kind == "api" and l.op in ("loadfrom", "copy", "plan.appendWith")),
+                           extra_flags=SAN, monitor_ids=["C18"], variants=("include", "development") if tier != "quick" else ("include",))
+        engine.run_machine(run, spec)
+        if tier != "quick":
+            spec2 = MachineSpec("C18", T.p_all, P_SAN, lambda t, r: cfgs_san("quick", r), lambda t: 60, spec.interesting, extra_flags=SAN, monitor_ids=["C18"], cxx="clang++", variants=("include",))
+            engine.run_machine(run, spec2)
+        rng = run.rng; q = tier == "quick"
+        lines = units.gen_tasklist(rng, 150 if q else 1500) + units.gen_bitarray(rng, 100 if q else 1000) + units.gen_arrays(rng, 100 if q else 1000) + units.gen_bitstream(rng, 100 if q else 1000, not q)
+        unitcheck.run(run, lines, variants=("include",) if q else ("include", "development"), extra_flags=SAN, label="sanitized")
+    finally:
+        for k, v in old_env.items():
+            if v is None: os.environ.pop(k, None)
+            else: os.environ[k] = v
+    # (2) no allocation: (i) undefined symbols of an object that instantiates the whole API; (ii) allocation counters at run time
+    names, masks = feature_sets(tier)
+    src = os.path.join(common.HARNESS, "matrix_tu.cpp")
+    sel = masks if tier != "quick" else [0, 255, 0b00000111, 0b00011111, 0b10101010, 0b01010101, 0b00001000, 0b11110000]
+    jobs = [(m, man, pay, v) for m in sel for (man, pay) in ((0, 0), (1, 1)) for v in (("include", "development") if tier != "quick" else ("include",))]
+    def scan(j):
+        m, man, pay, v = j
+        fl = mask_flags(names, m) + ["-DH_MANUAL=%d" % man, "-DH_PAYLOAD=%d" % pay]
+        obj, log = common.build_binary(src, fl + ["-DH_NOSTDIO", "-c"], v, extra_key="noalloc-object")
+        run_bin, log2 = common.build_binary(src, fl + ["-DH_COUNT_ALLOC"], v, extra_key="alloc-count")
+        return j, obj, log, run_bin, log2
+    for j, obj, log, run_bin, log2 in common.pmap(scan, jobs):
+        m, man, pay, v = j; cfgname = "matrix_tu mask=%02x manual=%d payload=%d %s" % (m, man, pay, v)
+        run.evaluations += 1; run.dist["noalloc-scan"] += 1
+        script = "g++ -std=c++11 %s -DH_MANUAL=%d -DH_PAYLOAD=%d harness/matrix_tu.cpp against the %s header" % (" ".join(mask_flags(names, m)), man, pay, v)
+        if obj is None or run_bin is None:
+            run.divergences.append(dict(what="the API translation unit does not compile", reason=(log or log2)[-2500:], cfg=cfgname, variant=v, script=script)); continue
+        r = subprocess.run(["nm", "-u", obj], capture_output=True, text=True)
+        bad = sorted(set(NOALLOC_SYMS.findall(r.stdout)))
+        if bad:
+            run.violations.append(dict(reason="an object file instantiating the whole FFSM2 API references allocation functions: %s" % ", ".join(bad), script=script, cfg=cfgname, variant=v)); continue
+        rc, out, err = common.run_proc([run_bin], "", timeout=30)
+        if rc != 0 or "allocs=0 heapdelta=0" not in out:
+            run.violations.append(dict(reason="heap traffic while running FFSM2 operations: %s (exit status %s) %s" % (out.strip(), rc, err[-300:]), script=script, cfg=cfgname, variant=v)); continue
+        run.traces_validated += 1; run.distinct.add(("noalloc", m, man, pay))
+    return dict(level="other", rule="(a) generated plan/payload/serialization/copy scripts (capacity-full plans, payload types with alignment 1/4/8/16, n = 1 .. 255 in thorough) run on harness builds with "
+                "-fsanitize=address,undefined -fno-sanitize-recover=all and compared with the model; any sanitizer report is a failing history; the unit harness likewise; "
+                "(b) for feature combinations x activation x payload: nm -u of an object instantiating the whole API must reference no allocation function, and a run with "
+                "counting operator new/delete and mallinfo2 deltas must report zero; non-trivial = hits a full plan / load / copy / payload task",
+                explanation="Coq part: index safety of every container operation under its invariant (Properties_C18.v, checked twins). The rest of C18 (misaligned access, indeterminate reads, "
+                            "allocation) lives in the C++ abstract machine, which the model does not have: decided by sanitizer-instrumented runs of the correspondence scripts on the real code, "
+                            "symbol inspection and allocation counters. Level 'other': one family of theorems plus instrumented execution.")
+
+CHECKS["C18"] = check_C18
+
+# ---------------------------------------------------------------------------------------------- C19
+P_NEUTRAL = BASE.with_(n_ops=(10, 30), w_ops=dict(update=10, react=5, query=2, change=5, immChange=6, exit_enter=3, destroy_construct=1, second_instance=1),
+                       w_meth=dict(guard=5, phase=4, life=1, plancb=0, query=1), w_act=dict(change=7, cancel=4), p_logger_at_construct=0.0)
+
+def cfgs_features(tier, rng):
+    out = []
+    extras = [(), ("FFSM2_ENABLE_STRUCTURE_REPORT",), ("FFSM2_ENABLE_DEBUG_STATE_TYPE",), ("FFSM2_DISABLE_TYPEINDEX",),
+              ("FFSM2_ENABLE_STRUCTURE_REPORT", "FFSM2_ENABLE_DEBUG_STATE_TYPE", "FFSM2_DISABLE_TYPEINDEX")]
+    combos = [(p, s, h, lg) for p in (0, 1) for s in (0, 1) for h in (0, 1) for lg in ("off", "on", "verbose")]
+    if tier == "quick": combos = [combos[i] for i in (0, 5, 10, 15, 20, 23)]
+    for k, (p, s, h, lg) in enumerate(combos):
+        out.append(cfgmod.make(n=3, head=1, manual=k % 2, limit=3, cap=2, payload=0, plans=p, serial=s, history=h, log=lg, xf=extras[k % len(extras)]))
+    return out
+
+def check_C19(run):
+    tier = run.tier; rng = run.rng
+    names, masks = feature_sets(tier)
+    src = os.path.join(common.HARNESS, "matrix_tu.cpp")
+    # (1) the compile matrix
+    stds = ["c++11", "c++14", "c++17", "c++20"]; cxxs = ["g++", "clang++"]
+    jobs = []
+    if tier == "quick":
+        for m in masks:
+            r = random.Random(m * 7919 + run.seed)
+            jobs.append((m, stds[(m + run.seed) % 4], cxxs[(m // 4 + run.seed) % 2], (m // 8) % 2, (m // 16 + m) % 2, ("include", "development")[(m // 2) % 2], False))
+        for std in stds:
+            for cxx in cxxs: jobs.append((0, std, cxx, 1, 1, "include", True))
+    else:
+        for m in masks:
+            for std in stds:
+                for cxx in cxxs:
+                    for man in (0, 1):
+                        for pay in (0, 1):
+                            for v in ("include", "development"): jobs.append((m, std, cxx, man, pay, v, False))
+        for std in stds:
+            for cxx in cxxs:
+                for man in (0, 1):
+                    for v in ("include", "development"): jobs.append((0, std, cxx, man, 1, v, True))
+    def syntax(j):
+        m, std, cxx, man, pay, v, en_all = j
+        fl = (["-DFFSM2_ENABLE_ALL"] if en_all else mask_flags(names, m)) + ["-DH_MANUAL=%d" % man, "-DH_PAYLOAD=%d" % pay]
+        cmd = [cxx, "-std=" + std, "-fsyntax-only", "-w", "-ftemplate-depth=2000"] + common.VARIANTS[v] + fl + [src]
+        r = subprocess.run(cmd, capture_output=True, text=True)
+        return j, r.returncode, " ".join(cmd), r.stderr
+    bad = []
+    for j, rc, cmd, err in common.pmap(syntax, jobs):
+        run.evaluations += 1; run.dist["syntax:%s:%s" % (j[2], j[1])] += 1
+        if rc != 0: bad.append((j, cmd, err))
+        else: run.distinct.add(("syntax",) + j)
+    if bad:
+        bad.sort(key=lambda b: (bin(b[0][0]).count("1"), b[0]))
+        j, cmd, err = bad[0]
+        first = next((l for l in err.splitlines() if "error" in l), err[:300])
+        run.violations.append(dict(reason="a documented switch combination does not compile (%d of %d configurations tried fail): %s" % (len(bad), len(jobs), first),
+                                   script=cmd, cfg="mask=%02x %s %s manual=%d payload=%d %s all=%s" % j, compiler_output=err[-3000:],
+                                   failing_masks=sorted(set("%02x" % b[0][0] for b in bad))[:64]))
+    # (2) include/ffsm2/machine.hpp is exactly the amalgamation of development/
+    r = subprocess.run(["sh", os.path.join(common.VERIF, "tools", "amalgamate.sh"), common.REPO], capture_output=True, text=True)
+    d = r.stdout.strip().split("\n")[-1] if r.returncode == 0 else ""
+    run.evaluations += 1
+    try:
+        if not d or not os.path.exists(os.path.join(d, "include", "ffsm2", "machine.hpp")):
+            run.divergences.append(dict(what="tools/join.py could not be run on a scratch copy", reason=(r.stdout + r.stderr)[-800:]))
+        else:
+            a = open(os.path.join(d, "include", "ffsm2", "machine.hpp"), "rb").read(); b = open(os.path.join(common.REPO, "include", "ffsm2", "machine.hpp"), "rb").read()
+            if a != b:
+                la = a.decode("utf8", "replace").splitlines(); lb = b.decode("utf8", "replace").splitlines()
+                i = next((k for k in range(min(len(la), len(lb))) if la[k] != lb[k]), min(len(la), len(lb)))
+                run.violations.append(dict(reason="include/ffsm2/machine.hpp is not the amalgamation of development/: first difference at line %d: shipped [%s] regenerated [%s]" % (
+                    i + 1, lb[i].strip() if i < len(lb) else "<end>", la[i].strip() if i < len(la) else "<end>"),
+                    script="cd <scratch copy>/tools && python3 join.py ; cmp ../include/ffsm2/machine.hpp /repo/include/ffsm2/machine.hpp", cfg="amalgamation"))
+            else: run.distinct.add(("amalgamation", len(a))); run.traces_validated += 1
+    finally:
+        if d and d.startswith("/var/tmp/ffsm2-join."): shutil.rmtree(d, ignore_errors=True)
+    # (3) a feature-neutral scenario gives the same digest under every switch combination and both header variants
+    sel = masks if tier != "quick" else sorted(set([0, 255] + [(37 * k + run.seed) % 256 for k in range(30)]))
+    bjobs = [(m, man, pay, v) for m in sel for (man, pay) in ((0, 0), (1, 0), (0, 1), (1, 1)) for v in ("include", "development")]
+    if tier == "quick": bjobs = [j for k, j in enumerate(bjobs) if k % 4 == (j[0] % 4)]
+    def build_run(j):
+        m, man, pay, v = j
+        b, log = common.build_binary(src, mask_flags(names, m) + ["-DH_MANUAL=%d" % man, "-DH_PAYLOAD=%d" % pay], v, extra_key="digest")
+        if b is None: return j, None, log
+        rc, out, err = common.run_proc([b], "", timeout=30)
+        return j, (rc, out.strip()), err
+    digests = {}
+    for j, res, err in common.pmap(build_run, bjobs):
+        m, man, pay, v = j; run.evaluations += 1; run.dist["digest-run"] += 1
+        if res is None: continue            # a compile failure is already reported by (1)
+        rc, out = res
+        if rc != 0:
+            run.violations.append(dict(reason="the feature-neutral scenario crashed (exit status %s) under mask %02x: %s" % (rc, m, err[-500:]), script="matrix_tu " + " ".join(mask_flags(names, m)), cfg="mask=%02x manual=%d payload=%d %s" % j)); continue
+        key = (man, pay)
+        if key in digests and digests[key][0] != out:
+            run.violations.append(dict(reason="enabling unused features changes observable behaviour: the neutral scenario's digest is [%s] under {%s} (%s header) but [%s] under {%s} (%s header)" % (
+                out, " ".join(mask_flags(names, m)) or "no switch", v, digests[key][0], " ".join(mask_flags(names, digests[key][1])) or "no switch", digests[key][2]),
+                script="harness/matrix_tu.cpp -DH_MANUAL=%d -DH_PAYLOAD=%d, scenario neutral()" % (man, pay), cfg="mask=%02x vs mask=%02x" % (m, digests[key][1])))
+        else:
+            digests.setdefault(key, (out, m, v)); run.traces_validated += 1; run.distinct.add(("digest", m, man, pay, v))
+    # (4) feature-neutral scripts on the machine harness under feature combinations, each compared with the model under the same switches
+    spec = MachineSpec("C19", T.p_all, P_NEUTRAL, cfgs_features, lambda t: 20 if t == "quick" else 80,
+                       lambda ls, c: has(ls, guard_cb) and has(ls, life_cb), monitor_ids=["C01", "C02", "C03"])
+    engine.run_machine(run, spec)
+    run.samples = run.samples[:2] + [dict(compile_job="%s -std=%s -fsyntax-only %s matrix_tu.cpp (%s header)" % (jobs[5][2], jobs[5][1], " ".join(mask_flags(names, jobs[5][0])), jobs[5][5]))]
+    return dict(level="other", exhaustive=(tier != "quick"),
+                rule="(1) -fsyntax-only of an API-covering translation unit for switch masks x {C++11,14,17,20} x {g++, clang++} x activation x payload x header variant "
+                     "(quick: all 256 masks each with one rotating choice of the other dimensions + FFSM2_ENABLE_ALL; thorough: the complete product, 16384 + 64 compilations); "
+                     "(2) tools/join.py on a scratch copy, byte comparison with the shipped header; (3) a feature-neutral scenario built and run under switch masks, digests compared; "
+                     "(4) feature-neutral generated scripts on the machine harness under plans/serialization/history/log/structure-report/debug-type/typeindex combinations, compared with the model",
+                explanation="Coq part: feature non-interference of logging, plans, serialization and transition history over all histories (Properties_C19.v). 'Every combination compiles' and 'the shipped "
+                            "header is the amalgamation' are facts about compilers and files that no model expresses: decided by complete enumeration of the finite configuration space (thorough) and byte comparison. Level 'other'.")
+
+CHECKS["C19"] = check_C19
